@@ -102,6 +102,10 @@ Scan(s, i, res, cell, iscr, inq, dr, dc) ==
           ELSE IF IsDigit(c) THEN Scan(s, i + 1, res, Append(cell, c), TRUE, inq2, dr, dc)
           ELSE Scan(s, i + 1, Append(res \o OffsetCellName(cell, dr, dc), c), <<>>, FALSE, inq2, dr, dc)
 AsIsText(atoms, dr, dc) == Scan(MasterText(atoms), 1, <<>>, <<>>, FALSE, FALSE, dr, dc)
+\* the scanner carries no state across a "+" outside quotes, so the as-is text is the "+"-join of the
+\* as-is texts of the atoms: a reader in which SOME of the named deviations are repaired produces, atom
+\* by atom, either the ideal or the as-is text (used to explain partial repairs)
+AsIsAtomText(a, dr, dc) == Scan(AtomText(a, 0, 0), 1, <<>>, <<>>, FALSE, FALSE, dr, dc)
 
 \* next_formula's offset map: rows differ -> first column only; else columns of the first row
 AsIsMember(shape, dr, dc) == IF shape.h > 1 THEN dc = 0 ELSE TRUE
